@@ -113,6 +113,11 @@ def gen_case(seed, tier, i):
     return kind, Gen(r, kind).gen(r.range(8, 60))
 
 
+def history(seed, tier, i):
+    """provider for the protocol-independent checks (vlib/protos.py)"""
+    return gen_case(seed, tier, i)[1]
+
+
 def corpus_cases():
     out = []
     d = os.path.join(core.HERE, "corpus", PROP)
